@@ -657,7 +657,7 @@ def gen_token(repo):
     body = block_after(s, r'impl\s+FromStr\s+for\s+HandRangeToken', 'FromStr for HandRangeToken')
     lits = []
     for nm in TOKEN_REGEX_NAMES:
-        mm = re.search(r'let\s+%s\s*=\s*Regex::new\(\s*r"([^"]*)"\s*\)\s*\.unwrap\(\)\s*;' % nm, body)
+        mm = re.search(r'let\s+%s\s*=\s*Regex::new\(\s*r"([^"]*)"\s*,?\s*\)\s*\.unwrap\(\)\s*;' % nm, body)
         if not mm:
             raise ExtractError('regex literal %s not found' % nm)
         lits.append(mm.group(1))
@@ -787,6 +787,17 @@ def main():
     except Exception as e:
         hits = None
         errors['Audit'] = repr(e)
+    if hits is not None:
+        out = HEADER
+        out += '/-- occurrences, in the non-test code of src/**, of constructs that could carry state shared between evaluator\n'
+        out += '    instances: static / thread_local! / unsafe / Cell / RefCell / UnsafeCell / Mutex / RwLock / Atomic* / lazy_static /\n'
+        out += '    OnceCell / OnceLock / LazyLock / LazyCell / Rc / raw pointers / extern -/\n'
+        out += 'def sharedStateHits : List String := [' + ', '.join(lean_str('%s: %s' % (h['file'], h['word'])) for h in hits) + ']\n'
+        try:
+            if write_if_changed(os.path.join(gen, 'Audit.lean'), out + FOOTER):
+                changed.append('Audit.lean')
+        except Exception as e:
+            errors['Audit'] = repr(e)
     man = {'errors': errors, 'changed': changed, 'audit_hits': hits, 'ranks': ranks, 'suits': suits}
     man.update(extra)
     with open(manifest, 'w') as f:
